@@ -183,6 +183,27 @@ def install(I):
     I.models.setdefault('getitem:SymMap', symmap_getitem)
     I.models.setdefault('comprehension', comprehension)
     I.models.setdefault('list.fallback', list_of_lazy)
+    # itertools over concrete (small) iterables: computed, as python does
+    import itertools as _it
+
+    def concrete_itertool(fn):
+        def model(ctx, args, kwargs):
+            conc = []
+            for a in args:
+                if isinstance(a, int) and not isinstance(a, bool):
+                    conc.append(a)
+                    continue
+                items = I.lib.concrete_iter(ctx, a)
+                if items is None:
+                    raise OutOfSubset("itertools.%s over a symbolic iterable" % fn.__name__)
+                conc.append(list(items))
+            kw = {k: v for k, v in kwargs.items() if isinstance(v, int)}
+            if len(kw) != len(kwargs):
+                raise OutOfSubset("itertools.%s with symbolic keyword" % fn.__name__)
+            return [tuple(x) for x in fn(*conc, **kw)]
+        return model
+    for nm in ('combinations', 'permutations', 'product', 'combinations_with_replacement'):
+        I.models.setdefault('itertools.' + nm, concrete_itertool(getattr(_it, nm)))
 
 
 # ------------------------------------------------------------------------------------------------
